@@ -23,6 +23,11 @@ import (
 	"strings"
 	"time"
 
+	"mellium.im/xmlstream"
+	"mellium.im/xmpp"
+	"mellium.im/xmpp/jid"
+	"mellium.im/xmpp/stanza"
+
 	"verifharness/common"
 )
 
@@ -236,4 +241,168 @@ func (c *ctxT) behindCorpus(cfg cfgT) {
 		}
 		c.behind(cfg, "finish", 0, len(msg), msg, cl)
 	}
+}
+
+// ---- round C: the remaining members of the IQ / message / presence families ---------------
+//
+// SendIQElement, SendMessageElement, SendPresenceElement (payload reader + stanza value),
+// EncodeIQElement, EncodeMessageElement, EncodePresenceElement (payload value + stanza value),
+// EncodeIQ, EncodeMessage, EncodePresence (a value that marshals to the whole stanza).  The line
+// of such a call is the line of the plain SendIQ / SendMessage / SendPresence call with the
+// same denotation: `toks` is exactly what the stanza value's Wrap produces around the payload
+// (forms `el`, `encel`), resp. what the value marshals to (`encv`); the stanza value is
+// recovered from the start element of `toks` (stanzaParts), so a replay makes the same call.
+
+type stanzaParts struct {
+	id, typ  string
+	to, from jid.JID
+	space    string
+}
+
+// stanzaParts reads id/to/from/type from a start element; ok is false if the element carries
+// anything a stanza value cannot reproduce exactly.
+func partsOf(st xml.StartElement) (p stanzaParts, ok bool) {
+	p.space = st.Name.Space
+	seenType := false
+	for _, a := range st.Attr {
+		if a.Name.Space != "" || a.Value == "" && a.Name.Local != "type" {
+			return p, false
+		}
+		switch a.Name.Local {
+		case "id":
+			p.id = a.Value
+		case "type":
+			p.typ, seenType = a.Value, true
+		case "to", "from":
+			j, err := jid.Parse(a.Value)
+			if err != nil || j.String() != a.Value {
+				return p, false
+			}
+			if a.Name.Local == "to" {
+				p.to = j
+			} else {
+				p.from = j
+			}
+		default:
+			return p, false
+		}
+	}
+	return p, seenType
+}
+
+func sameStart(a, b xml.StartElement) bool {
+	if a.Name != b.Name || len(a.Attr) != len(b.Attr) {
+		return false
+	}
+	m := map[string]int{}
+	for _, x := range a.Attr {
+		m[attrKey(x)]++
+	}
+	for _, x := range b.Attr {
+		m[attrKey(x)]--
+	}
+	for _, v := range m {
+		if v != 0 {
+			return false
+		}
+	}
+	return true
+}
+
+// familyCall makes the call of form el / encel / encv for entry iq / msg / pres; done is false
+// when toks is not exactly what the stanza value denotes (the caller then makes the plain call).
+func familyCall(s *xmpp.Session, ctx context.Context, cl call) (resp xmlstream.TokenReadCloser, err error, done bool) {
+	if len(cl.toks) < 2 {
+		return nil, nil, false
+	}
+	st, ok := cl.toks[0].(xml.StartElement)
+	if !ok {
+		return nil, nil, false
+	}
+	if cl.form == "encv" {
+		v := tokMarshaler{cl.toks}
+		switch cl.entry {
+		case "iq":
+			resp, err = s.EncodeIQ(ctx, v)
+		case "msg":
+			resp, err = s.EncodeMessage(ctx, v)
+		default:
+			resp, err = s.EncodePresence(ctx, v)
+		}
+		return resp, err, true
+	}
+	p, ok := partsOf(st)
+	if !ok {
+		return nil, nil, false
+	}
+	inner := cl.toks[1 : len(cl.toks)-1]
+	name := xml.Name{Space: p.space}
+	switch cl.entry {
+	case "iq":
+		v := stanza.IQ{XMLName: name, ID: p.id, To: p.to, From: p.from, Type: stanza.IQType(p.typ)}
+		if !sameStart(v.StartElement(), st) {
+			return nil, nil, false
+		}
+		if cl.form == "el" {
+			resp, err = s.SendIQElement(ctx, reader(inner), v)
+		} else {
+			resp, err = s.EncodeIQElement(ctx, tokMarshaler{inner}, v)
+		}
+	case "msg":
+		v := stanza.Message{XMLName: name, ID: p.id, To: p.to, From: p.from, Type: stanza.MessageType(p.typ)}
+		if !sameStart(v.StartElement(), st) {
+			return nil, nil, false
+		}
+		if cl.form == "el" {
+			resp, err = s.SendMessageElement(ctx, reader(inner), v)
+		} else {
+			resp, err = s.EncodeMessageElement(ctx, tokMarshaler{inner}, v)
+		}
+	default:
+		v := stanza.Presence{XMLName: name, ID: p.id, To: p.to, From: p.from, Type: stanza.PresenceType(p.typ)}
+		if !sameStart(v.StartElement(), st) {
+			return nil, nil, false
+		}
+		if cl.form == "el" {
+			resp, err = s.SendPresenceElement(ctx, reader(inner), v)
+		} else {
+			resp, err = s.EncodePresenceElement(ctx, tokMarshaler{inner}, v)
+		}
+	}
+	return resp, err, true
+}
+
+// familyVariant rewrites a generated iq / msg / pres call into one of the other members of its
+// family: the start element becomes what a stanza value produces.
+func familyVariant(rnd *common.Rand, cl call) call {
+	form := pickS(rnd, []string{"el", "encel", "encv"})
+	if form == "encv" {
+		cl.form = form
+		return cl
+	}
+	st := cl.toks[0].(xml.StartElement)
+	typ := map[string][]string{"iq": {"get", "set", "result", "error"}, "msg": {"chat", "normal", "headline", "error", ""},
+		"pres": {"", "unavailable", "subscribe", "probe", "error"}}[cl.entry]
+	as := at("type", pickS(rnd, typ))
+	if rnd.Chance(1, 2) {
+		as = append(as, xml.Attr{Name: xml.Name{Local: "to"}, Value: remoteJID.String()})
+	}
+	if rnd.Chance(1, 3) {
+		as = append(as, xml.Attr{Name: xml.Name{Local: "from"}, Value: localJID.String()})
+	}
+	if rnd.Chance(1, 2) {
+		as = append(as, xml.Attr{Name: xml.Name{Local: "id"}, Value: pick(rnd, valPool)})
+	}
+	var keep []xml.Attr
+	for _, a := range as {
+		if a.Value != "" || a.Name.Local == "type" {
+			keep = append(keep, a)
+		}
+	}
+	local := map[string]string{"iq": "iq", "msg": "message", "pres": "presence"}[cl.entry]
+	st = xml.StartElement{Name: xml.Name{Space: pickS(rnd, []string{"", "", nsClient, nsServer}), Local: local}, Attr: keep}
+	toks := append([]xml.Token{st}, cl.toks[1:len(cl.toks)-1]...)
+	cl.toks = append(toks, st.End())
+	cl.form = form
+	return cl
 }
